@@ -56,3 +56,102 @@ def extra(ctx, rep):
         rep.refuted("R-C41-process", QS, "process_queue", lp, "a queued object can be appended twice in one iteration")
     else:
         rep.proved("R-C41-process", f"{QS}:process_queue body", f"every iteration appends `{obj}` to exactly one of {sorted(out_lists)} or raises")
+
+
+# ------------------------------------------------------------------------------------------------------------------
+# R-C41-consume — the eager (non-lazy) forms of the arithmetic / wrapper *functions* build their result from parts of
+# the operand (operator.base, the flattened factors, base.pow(z)) rather than handing the operand to a wrapper class
+# whose own queue() would take it out of the recording; those paths must de-queue the operand themselves.
+# Table read off pennylane/ops/op_math (one line each: file, function, operand parameter, one operand or several).
+CONSUMERS = [
+    ("pennylane/ops/op_math/sprod.py", "s_prod", "operator", "one"),
+    ("pennylane/ops/op_math/prod.py", "prod", "ops", "many"),
+    ("pennylane/ops/op_math/sum.py", "sum", "summands", "many"),
+    ("pennylane/ops/op_math/pow.py", "pow", "base", "one"),
+    ("pennylane/ops/op_math/controlled.py", "create_controlled_op", "op", "one"),
+    ("pennylane/ops/op_math/controlled.py", "create_controlled_op2", "op", "one"),
+]
+
+
+def _is_remove_call(n, names):
+    return (isinstance(n, ast.Call) and isinstance(n.func, ast.Attribute) and n.func.attr == "remove"
+            and norm(n.func.value).endswith("QueuingManager") and n.args and isinstance(n.args[0], ast.Name) and n.args[0].id in names)
+
+
+def consume(ctx, rep):
+    ix = ctx.index
+    rep.rule("R-C41-consume", "in s_prod / prod / sum / pow / create_controlled_op(2): every path to a return whose value is built from parts of "
+             "the operand (not the operand itself, not a wrapper constructor that receives the operand whole, not a deferred function) passes "
+             "through QueuingManager.remove(<operand>) (for several operands: a loop over them that removes each)")
+    n_ret = 0
+    for rel, fname, param, arity in CONSUMERS:
+        f = ix.func(rel, fname)
+        if f is None:
+            raise AnalysisError(f"{rel}:{fname} vanished")
+        rep.analysed(rel, fname)
+        a = f.node.args
+        allp = [x.arg for x in a.posonlyargs + a.args] + ([a.vararg.arg] if a.vararg else [])
+        if param not in allp:
+            raise AnalysisError(f"{rel}:{fname}: operand parameter `{param}` vanished")
+        cfg = CFG(f.node, may_raise=lambda n: False)
+        nested = {n.name for n in ast.walk(f.node) if isinstance(n, ast.FunctionDef) and n is not f.node}
+
+        def is_remove(nd, param=param, arity=arity):
+            s = nd.stmt
+            if s is None:
+                return False
+            if nd.kind == "stmt":
+                for x in ast.walk(s):
+                    if _is_remove_call(x, {param}) and arity == "one":
+                        return True
+                    # [QueuingManager.remove(o) for o in ops]
+                    if isinstance(x, (ast.ListComp, ast.GeneratorExp)) and arity == "many" and len(x.generators) == 1 and not x.generators[0].ifs \
+                            and isinstance(x.generators[0].iter, ast.Name) and x.generators[0].iter.id == param \
+                            and isinstance(x.generators[0].target, ast.Name) and _is_remove_call(x.elt, {x.generators[0].target.id}):
+                        return True
+            if nd.kind == "for" and arity == "many" and isinstance(s.iter, ast.Name) and s.iter.id == param and isinstance(s.target, ast.Name):
+                # for op in ops: QueuingManager.remove(op)   (first level of the body, unconditional)
+                return any(isinstance(b, ast.Expr) and _is_remove_call(b.value, {s.target.id}) for b in s.body)
+            return False
+
+        def classify(v):
+            if v is None:
+                return "none"
+            if isinstance(v, ast.Name) and v.id == param:
+                return "operand"
+            if isinstance(v, ast.Subscript) and isinstance(v.value, ast.Name) and v.value.id == param:
+                return "operand"
+            if isinstance(v, ast.Name) and v.id in nested:
+                return "function"
+            if isinstance(v, ast.IfExp):
+                ks = {classify(v.body), classify(v.orelse)}
+                return ks.pop() if len(ks) == 1 else "built"
+            if isinstance(v, ast.Call):
+                for x in v.args:
+                    if isinstance(x, ast.Name) and x.id == param and arity == "one":
+                        return "wrapped"
+                    if isinstance(x, ast.Starred) and isinstance(x.value, ast.Name) and x.value.id == param and arity == "many":
+                        return "wrapped"
+                for kw in v.keywords:
+                    if isinstance(kw.value, ast.Name) and kw.value.id == param and arity == "one":
+                        return "wrapped"
+            return "built"
+
+        for rn in [x for x in cfg.stmts("return")]:
+            kind = classify(rn.stmt.value)
+            where = f"{rel}:{fname} `{norm(rn.stmt)[:70]}`"
+            if kind in ("operand", "function", "none"):
+                rep.proved("R-C41-consume", where, f"returns the {kind}: nothing is consumed", nontrivial=False)
+                continue
+            if kind == "wrapped":
+                rep.proved("R-C41-consume", where, f"`{param}` is handed whole to the wrapper constructor, whose queue() replaces it (R-C41-own)", nontrivial=False)
+                continue
+            n_ret += 1
+            p = cfg.path_avoiding(cfg.entry, rn.id, is_remove)
+            if p is None:
+                rep.proved("R-C41-consume", where, f"every path passes QueuingManager.remove(<{param}>)")
+            else:
+                rep.refuted("R-C41-consume", rel, fname, rn.stmt,
+                            f"the returned operator is built from parts of `{param}` and some path to this return never de-queues `{param}`: inside a "
+                            f"recording context both the consumed operand and the new operator are recorded", line=rn.stmt.lineno)
+    rep.floor("eager-constructor returns that must de-queue their operand", n_ret, 5)
